@@ -141,7 +141,7 @@ class Ref:
                         else:
                             r = self.core(p)
                             F |= {c for c in self.syms if self.live(r, r, c)}
-                if has_else:
+                if has_else and not strict:
                     F |= set(self.syms)
                 empty = False
                 break
